@@ -74,7 +74,16 @@ def decField (j : Json) : FieldDecl :=
     required := bool! (fld j "required"),
     default := (obj? j "default").map decVal,
     onError := decPolicy (fld j "on_error"),
-    deps := (arr! (fld j "deps")).map str! }
+    deps := (arr! (fld j "deps")).map str!,
+    posOnly := bool! (fld j "posOnly") }
+
+def decProp (j : Json) : PropDecl :=
+  { name := str! (fld j "name"),
+    ty := if isNull (fld j "ty") then none else some (decTy (fld j "ty")),
+    onError := decPolicy (fld j "on_error"),
+    src := match obj? j "field" with
+      | some n => .field (str! n)
+      | none => .const (decVal (fld j "const")) }
 
 def decMode (j : Json) : Mode :=
   match arr! j with
@@ -237,11 +246,16 @@ def handle (j : Json) : Json :=
   let go (W : World) : Json :=
     match call with
     | none =>
-      let runs := modes.map fun m => encRes encData (if legacy then runLegacy W fuel decl m o data else run W fuel decl m o data)
+      let props := (arr! (fld j "props")).map decProp
+      let runs := modes.map fun m => encRes encData
+        (if legacy then runLegacy W fuel decl m o data
+         else if props.isEmpty then run W fuel decl m o data else runSchema W fuel decl props m o data)
       let alone := items.map fun i => Json.arr #[Json.str i, Json.bool (failsAlone W fuel decl o data i)]
-      Json.mkObj [("runs", Json.arr runs.toArray), ("alone", Json.arr alone.toArray)]
+      let palone := props.map fun p => Json.arr #[Json.str p.name, Json.bool (propFails W fuel decl o data p)]
+      Json.mkObj [("runs", Json.arr runs.toArray), ("alone", Json.arr alone.toArray), ("palone", Json.arr palone.toArray)]
     | some cj =>
-      let sg : Sig := { decl := decl, npos := nat! (fld cj "npos"), hasVar := bool! (fld cj "hasVar"),
+      let sg : Sig := { decl := decl, npos := nat! (fld cj "npos"), nposOnly := nat! (fld cj "nposOnly"),
+                        hasVar := bool! (fld cj "hasVar"),
                         posTy := if isNull (fld cj "posTy") then none else some (decTy (fld cj "posTy")) }
       let args := (arr! (fld cj "args")).map decVal
       let encCall (r : List Val × Data) : Json :=
